@@ -24,7 +24,8 @@ Inductive q0 :=
 | Z0Bind (src : q0) (x : bytes) (body : q0)   (* src as $x | body ; x carries the $ *)
 | Z0Var (x : bytes)
 | Z0Array (q : q0)                            (* [q] *)
-| Z0Reduce (src : q0) (x : bytes) (init upd : q0).   (* reduce src as $x (init; upd) *)
+| Z0Reduce (src : q0) (x : bytes) (init upd : q0)    (* reduce src as $x (init; upd) *)
+| Z0Alt (a b : q0).                            (* a // b *)
 
 Definition paren (q : query) : term := Term (TQuery q) [].
 
@@ -50,6 +51,7 @@ Fixpoint emb (q : q0) : query :=
   | Z0Var x => q_call x []
   | Z0Array q => q_term (TArray (Some (emb q)))
   | Z0Reduce src x init upd => q_term (TReduce (emb src) (Pattern x [] []) (emb init) (emb upd))
+  | Z0Alt a b => q_bin (emb a) OpAlt (emb b)
   end.
 
 (* eager list semantics, clause by clause as coq/c01vm/Den.v *)
@@ -141,6 +143,13 @@ Fixpoint den0 (q : q0) (rho : env) (v : jv) : result :=
         | inr e => ([], Some e)
         | inl acc => match sx with Some e => ([], Some e) | None => ([acc], None) end
         end)
+  | Z0Alt a b =>
+      let '(ws, x) := den0 a rho v in
+      let ts := filter truthy ws in
+      match x with
+      | Some e => (ts, Some e)                (* an error of the left operand propagates *)
+      | None => match ts with [] => den0 b rho v | _ => (ts, None) end
+      end
   end.
 
 End Den0.
@@ -209,15 +218,48 @@ Variable bs : list funcdef.
 Variable rs : bool.
 
 (* continuations keep the representation flag (every state update of Sem does) *)
-(* continuations keep an invariant of the state that implies the representation flag *)
-Definition K_ok (Inv : sst -> Prop) (k : K) : Prop := forall w s, Inv s -> Inv (snd (k (plain w) None s)).
+(* A frame: a live cell pushed by an enclosing `//` or foreach while the consumer runs.  The id is the
+   counter's value, the counter moves by one. *)
+Definition fr1 (val : tv) (s : sst) : sst :=
+  mkst (outs s) (nout s) (cap s) (nextid s + 1)%N (inputs s) ((nextid s, val) :: cells s) (repsens s) (steps s).
+
+(* well-behaved continuations, relative to a state invariant Inv: they keep Inv, they leave the id counter
+   where it was (every id they allocate is dead when they return), and they do not see frames *)
+Record K_ok (Inv : sst -> Prop) (k : K) : Prop := {
+  kg_ok : forall w s, Inv s -> Inv (snd (k (plain w) None s));
+  kg_nid : forall w s, Inv s -> nextid (snd (k (plain w) None s)) = nextid s;
+  kg_fr : forall w s val, Inv s ->
+          k (plain w) None (fr1 val s) = (fst (k (plain w) None s), fr1 val (snd (k (plain w) None s)))
+}.
+(* the invariant implies the representation flag and is stable under frames *)
+Definition inv_ok (Inv : sst -> Prop) : Prop :=
+  (forall s, Inv s -> repsens s = rs) /\ (forall s val, Inv s -> Inv (fr1 val s)).
 
 Lemma run_list_ok Inv k ws e s : K_ok Inv k -> Inv s -> Inv (snd (run_list k ws e s)).
 Proof.
   intros Hk. revert s. induction ws as [|w r IH]; intros s Hs; cbn [run_list].
   - destruct e; exact Hs.
-  - unfold bind. specialize (Hk w s Hs). destruct (k (plain w) None s) as [[[]|x] s1]; cbn in *.
-    + apply IH. exact Hk. + exact Hk.
+  - unfold bind. pose proof (kg_ok _ _ Hk w s Hs) as H1. destruct (k (plain w) None s) as [[[]|x] s1]; cbn in *.
+    + apply IH. exact H1. + exact H1.
+Qed.
+
+Lemma run_list_nid Inv k ws e s : K_ok Inv k -> Inv s -> nextid (snd (run_list k ws e s)) = nextid s.
+Proof.
+  intros Hk. revert s. induction ws as [|w r IH]; intros s Hs; cbn [run_list].
+  - destruct e; reflexivity.
+  - unfold bind. pose proof (kg_ok _ _ Hk w s Hs) as H1. pose proof (kg_nid _ _ Hk w s Hs) as H2.
+    destruct (k (plain w) None s) as [[[]|x] s1]; cbn in *.
+    + rewrite IH by exact H1. exact H2. + exact H2.
+Qed.
+
+Lemma run_list_fr Inv k ws e s val : K_ok Inv k -> Inv s ->
+  run_list k ws e (fr1 val s) = (fst (run_list k ws e s), fr1 val (snd (run_list k ws e s))).
+Proof.
+  intros Hk. revert s. induction ws as [|w r IH]; intros s Hs; cbn [run_list].
+  - destruct e; reflexivity.
+  - unfold bind. rewrite (kg_fr _ _ Hk w s val Hs). pose proof (kg_ok _ _ Hk w s Hs) as H1.
+    destruct (k (plain w) None s) as [[[]|x] s1]; cbn [fst snd] in *.
+    + apply IH. exact H1. + reflexivity.
 Qed.
 
 Lemma run_list_ext Inv k1 k2 ws e s : K_ok Inv k1 -> Inv s ->
@@ -225,8 +267,19 @@ Lemma run_list_ext Inv k1 k2 ws e s : K_ok Inv k1 -> Inv s ->
   run_list k1 ws e s = run_list k2 ws e s.
 Proof.
   intros Hk Hs He. revert s Hs. induction ws as [|w r IH]; intros s Hs; cbn [run_list]; [reflexivity|].
-  unfold bind. rewrite <- (He w s Hs). specialize (Hk w s Hs).
-  destruct (k1 (plain w) None s) as [[[]|x] s1]; [apply IH; exact Hk|reflexivity].
+  unfold bind. rewrite <- (He w s Hs). pose proof (kg_ok _ _ Hk w s Hs) as H1.
+  destruct (k1 (plain w) None s) as [[[]|x] s1]; [apply IH; exact H1|reflexivity].
+Qed.
+
+(* a continuation that is, on Inv-states, "run k over a list" is well-behaved when k is *)
+Lemma K_ok_of_eq Inv k (K' : K) (F : jv -> result) : inv_ok Inv -> K_ok Inv k ->
+  (forall w s, Inv s -> K' (plain w) None s = run_res k (F w) s) -> K_ok Inv K'.
+Proof.
+  intros [HI1 HI2] Hk He. constructor.
+  - intros w s Hs. rewrite He by exact Hs. apply (run_list_ok Inv); assumption.
+  - intros w s Hs. rewrite He by exact Hs. apply (run_list_nid Inv); assumption.
+  - intros w s val Hs. rewrite He by (apply HI2; exact Hs). rewrite He by exact Hs.
+    apply (run_list_fr Inv); assumption.
 Qed.
 
 Hypothesis Hempty : lookup_builtin bs (codes "empty") 0 = None.
@@ -259,6 +312,7 @@ Fixpoint ok0 (q : q0) : Prop :=
   | Z0Var x => is_var_name x = true /\ list_N_eqb x (codes "$ENV") = false
   | Z0Array q => ok0 q
   | Z0Reduce src x init upd => is_var_name x = true /\ ok0 src /\ ok0 init /\ ok0 upd
+  | Z0Alt a b => ok0 a /\ ok0 b
   | _ => True
   end.
 
@@ -271,12 +325,13 @@ Fixpoint need (q : q0) : nat :=
   | Z0Bind src x body => 3 + Nat.max (need src) (need body)
   | Z0Array q => 3 + need q
   | Z0Reduce src x init upd => 4 + Nat.max (need src) (Nat.max (need init) (need upd))
+  | Z0Alt a b => 2 + Nat.max (need a) (need b)
   | _ => 4
   end.
 
 Definition sim (q : q0) : Prop :=
   forall (n : nat) rho v k s (Inv : sst -> Prop), (need q <= n)%nat -> vars_only rho ->
-    (forall s0, Inv s0 -> repsens s0 = rs) -> K_ok Inv k -> Inv s ->
+    inv_ok Inv -> K_ok Inv k -> Inv s ->
     eval_q bs n rho (emb q) (plain v) None k s = run_res k (den0 rs q rho v) s.
 
 Lemma run_single k w s : run_res k ([w], None) s = k (plain w) None s.
@@ -296,7 +351,7 @@ Proof.
   intros Ha Hb n rho v k s Inv Hn Hr HI Hk Hs. cbn [need] in Hn. destruct n as [|n]; [lia|].
   cbn [emb den0]. rewrite pipe_law.
   assert (HK : K_ok Inv (fun x ps' => eval_q bs n rho (emb b) x ps' k)).
-  { intros w s' Hs'. rewrite (Hb _ _ _ _ _ Inv) by (try lia; assumption). apply (run_list_ok Inv); assumption. }
+  { apply (K_ok_of_eq Inv k _ (den0 rs b rho)); try assumption. intros w s' Hs'. apply (Hb _ _ _ _ _ Inv); try assumption. lia. }
   rewrite (Ha _ _ _ _ _ Inv) by (try lia; assumption). unfold run_res at 1.
   rewrite (run_list_ext Inv _ (fun x _ => run_res k (den0 rs b rho (fst x)))); try assumption.
   - rewrite run_rbind. destruct (den0 rs a rho v); reflexivity.
@@ -350,7 +405,7 @@ Proof.
   unfold guard_repsens. replace (is_formatter (codes "length")) with false by reflexivity.
   destruct (fn_length v) as [w|c val|why]; cbn [lift of_nres].
   - rewrite run_single. reflexivity.
-  - unfold raise_err, run_res, mask. cbn [run_list fst snd]. rewrite (HI _ Hs). reflexivity.
+  - unfold raise_err, run_res, mask. cbn [run_list fst snd]. rewrite (proj1 HI _ Hs). reflexivity.
   - reflexivity.
 Qed.
 
@@ -396,11 +451,11 @@ Proof.
   cbn [emb den0]. unfold eval_q. cbn [evals_n step ev_q step_eval_q push_defs fold_left ev_t step_eval_t rev app].
   fold_eval.
   assert (HK : K_ok Inv (fun x ps' => iterate x ps' k)).
-  { intros w s' Hs'. rewrite iterate_run by (apply HI; assumption). apply (run_list_ok Inv); assumption. }
+  { apply (K_ok_of_eq Inv k _ (iter_res rs)); try assumption. intros w s' Hs'. apply iterate_run. apply (proj1 HI). exact Hs'. }
   rewrite (Ht _ _ _ _ _ Inv) by (try lia; assumption). unfold run_res at 1.
   rewrite (run_list_ext Inv _ (fun x _ => run_res k (iter_res rs (fst x)))); try assumption.
   - rewrite run_rbind. destruct (den0 rs t rho v); reflexivity.
-  - intros w s' Hs'. apply iterate_run. apply HI. exact Hs'.
+  - intros w s' Hs'. apply iterate_run. apply (proj1 HI). exact Hs'.
 Qed.
 
 Lemma index_run k w key s : repsens s = rs ->
@@ -419,11 +474,11 @@ Proof.
   unfold step_eval_index. cbn [index_key ev_t step step_eval_t rev app].
   fold_eval.
   assert (HK : K_ok Inv (fun x ps' => lift (fn_index2 (fst x) (VStr (c :: key))) (fun w => nav ps' x (VStr (c :: key)) w k))).
-  { intros w s' Hs'. cbn [fst plain]. rewrite index_run by (apply HI; assumption). apply (run_list_ok Inv); assumption. }
+  { apply (K_ok_of_eq Inv k _ (fun w => of_nres rs (fn_index2 w (VStr (c :: key))))); try assumption. intros w s' Hs'. apply index_run. apply (proj1 HI). exact Hs'. }
   rewrite (Ht _ _ _ _ _ Inv) by (try lia; assumption). unfold run_res at 1.
   rewrite (run_list_ext Inv _ (fun x _ => run_res k (of_nres rs (fn_index2 (fst x) (VStr (c :: key)))))); try assumption.
   - rewrite (run_rbind k (fun w => of_nres rs (fn_index2 w (VStr (c :: key))))). destruct (den0 rs t rho v); reflexivity.
-  - intros w s' Hs'. apply index_run. apply HI. exact Hs'.
+  - intros w s' Hs'. apply index_run. apply (proj1 HI). exact Hs'.
 Qed.
 
 Lemma sim_if c a b : sim c -> sim a -> sim b -> sim (Z0If c a b).
@@ -434,9 +489,8 @@ Proof.
   set (K' := fun (x : tv) (_ : pst) => if truthy (fst x) then eval_q bs (S n) rho (emb a) (plain v) None k
                                        else eval_q bs (S n) rho (emb b) (plain v) None k).
   assert (HK : K_ok Inv K').
-  { intros w s' Hs'. unfold K'. cbn [fst plain]. destruct (truthy w).
-    - rewrite (Ha _ _ _ _ _ Inv) by (try lia; assumption). apply (run_list_ok Inv); assumption.
-    - rewrite (Hb _ _ _ _ _ Inv) by (try lia; assumption). apply (run_list_ok Inv); assumption. }
+  { apply (K_ok_of_eq Inv k _ (fun w => if truthy w then den0 rs a rho v else den0 rs b rho v)); try assumption.
+    intros w s' Hs'. unfold K'. cbn [fst plain]. destruct (truthy w); [apply (Ha _ _ _ _ _ Inv)|apply (Hb _ _ _ _ _ Inv)]; try assumption; lia. }
   change (eval_q bs (S n) rho (emb c) (plain v) None K' s = run_res k (rbind (den0 rs c rho v) (fun w => if truthy w then den0 rs a rho v else den0 rs b rho v)) s).
   rewrite (Hc _ _ _ _ _ Inv) by (try lia; assumption). unfold run_res at 1.
   rewrite (run_list_ext Inv _ (fun x _ => run_res k ((fun w => if truthy w then den0 rs a rho v else den0 rs b rho v) (fst x)))); try assumption.
@@ -492,6 +546,9 @@ Proof.
     + destruct sx as [e|]; [|triv0]. intros d c val E. cbn in E. eapply IHs. exact E.
     + intros d c val E. cbn in E. injection E as ->.
       eapply reduce_fold0_depth0; [|exact ER]. intros w acc. apply den0_depth0.
+  - pose proof (den0_depth0 q1 rho v) as IHa. destruct (den0 rs q1 rho v) as [ws [x|]].
+    + intros d c val E. cbn in E. eapply IHa. exact E.
+    + destruct (filter truthy ws); [apply den0_depth0|triv0].
 Qed.
 
 Lemma sim_try a h : sim a -> match h with Some h => sim h | None => True end -> sim (Z0Try a h).
@@ -500,7 +557,10 @@ Proof.
   cbn [emb]. unfold eval_q, q_term. cbn [evals_n step ev_q step_eval_q push_defs fold_left ev_t step_eval_t rev app].
   fold_eval.
   assert (HK : K_ok Inv (fun y ps' => down (k y ps'))).
-  { intros w s' Hs'. unfold down. specialize (Hk w s' Hs'). destruct (k (plain w) None s') as [[[]|[]] s1]; exact Hk. }
+  { constructor.
+    - intros w s' Hs'. unfold down. pose proof (kg_ok _ _ Hk w s' Hs') as H1. destruct (k (plain w) None s') as [[[]|[]] s1]; exact H1.
+    - intros w s' Hs'. unfold down. pose proof (kg_nid _ _ Hk w s' Hs') as H1. destruct (k (plain w) None s') as [[[]|[]] s1]; exact H1.
+    - intros w s' val Hs'. unfold down. rewrite (kg_fr _ _ Hk w s' val Hs'). destruct (k (plain w) None s') as [[[]|[]] s1]; reflexivity. }
   unfold try_catch at 1.
   rewrite (Ha _ _ _ _ _ Inv) by (try lia; assumption).
   change (try_catch (run_res (fun y ps' => down (k y ps')) (den0 rs a rho v))
@@ -556,10 +616,25 @@ Proof.
     rewrite set_cells_twice. cbn [rev]. rewrite <- app_assoc. reflexivity.
 Qed.
 
-Lemma coll_ok c : K_ok (fun s => repsens s = rs) (coll c).
+(* collectors and setters of a cell c are well-behaved on states where c is an allocated id *)
+Definition inv_c (c : N) (s : sst) : Prop := repsens s = rs /\ (c < nextid s)%N.
+
+Lemma inv_c_ok c : inv_ok (inv_c c).
+Proof. split; [intros s [H _]; exact H|]. intros s val [H1 H2]. split; [exact H1|]. cbn [fr1 nextid]. lia. Qed.
+
+Lemma coll_ok c : K_ok (inv_c c) (coll c).
 Proof.
-  intros w s Hs. unfold coll, bind, get_cell. destruct (cell_lookup (cells s) c) as [[a i]|]; [|exact Hs].
-  cbn [fst]. destruct a; exact Hs.
+  constructor.
+  - intros w s [H1 H2]. unfold coll, bind, get_cell. destruct (cell_lookup (cells s) c) as [[a i]|]; [|split; assumption].
+    cbn [fst]. destruct a; split; assumption.
+  - intros w s _. unfold coll, bind, get_cell. destruct (cell_lookup (cells s) c) as [[a i]|]; [|reflexivity].
+    cbn [fst]. destruct a; reflexivity.
+  - intros w s val [H1 H2]. unfold coll, bind, get_cell. cbn [fr1 cells cell_lookup].
+    destruct (N.eqb_spec (nextid s) c) as [E|_]; [lia|].
+    destruct (cell_lookup (cells s) c) as [[a i]|]; [|reflexivity].
+    cbn [fst]. destruct a; try reflexivity.
+    unfold set_cell, set_cells. cbn [fr1 cells cell_update outs nout cap nextid inputs repsens steps fst snd].
+    destruct (N.eqb_spec (nextid s) c) as [E|_]; [lia|]. reflexivity.
 Qed.
 
 Lemma sim_array q : sim q -> sim (Z0Array q).
@@ -570,7 +645,7 @@ Proof.
   change (fun (x : tv) (_ : pst) => a <- get_cell (nextid s);; match fst a with
             | VArr l => set_cell (nextid s) (plain (VArr (fst x :: l))) | _ => skipM "cell" end) with (coll (nextid s)).
   set (st := mkst (outs s) (nout s) (cap s) (nextid s + 1)%N (inputs s) ((nextid s, plain (VArr [])) :: cells s) (repsens s) (steps s)).
-  rewrite (Hq _ _ _ _ _ (fun s1 => repsens s1 = rs)); [|lia|assumption|auto|apply coll_ok|exact (HI _ Hs)].
+  rewrite (Hq _ _ _ _ _ (inv_c (nextid s))); [|lia|assumption|apply inv_c_ok|apply coll_ok|split; [exact (proj1 HI _ Hs)|subst st; cbn [nextid]; lia]].
   unfold run_res. rewrite (coll_run (nextid s) (cells s) (fst (den0 rs q rho v)) (snd (den0 rs q rho v)) [] st eq_refl).
   subst st.
   destruct (den0 rs q rho v) as [ws [x|]]; cbn [fst snd set_cells cells cell_lookup cell_remove outs nout cap nextid inputs repsens steps].
@@ -594,6 +669,35 @@ Proof.
     rewrite (IH u (set_cells s1 ((c, plain u) :: cs)) eq_refl). rewrite set_cells_twice, last_cons. reflexivity.
 Qed.
 
+Lemma setter_ok c : K_ok (inv_c c) (setter c).
+Proof.
+  constructor.
+  - intros w s H. exact H.
+  - intros w s _. reflexivity.
+  - intros w s val [H1 H2]. unfold setter, set_cell, set_cells.
+    cbn [fr1 cells cell_update outs nout cap nextid inputs repsens steps fst snd].
+    destruct (N.eqb_spec (nextid s) c) as [E|_]; [lia|]. reflexivity.
+Qed.
+
+Lemma cell_lookup_update cs c v u : cell_lookup cs c = Some v -> cell_lookup (cell_update cs c u) c = Some u.
+Proof.
+  induction cs as [|[i w] r IH]; [discriminate|]. cbn [cell_lookup cell_update].
+  destruct (N.eqb_spec i c) as [->|Hne]; cbn [cell_lookup].
+  - intros _. rewrite N.eqb_refl. reflexivity.
+  - intros H. destruct (N.eqb_spec i c); [contradiction|]. apply IH. exact H.
+Qed.
+
+(* the cell c holds a plain value: kept by any run of its setter *)
+Definition holds (c : N) (s : sst) : Prop := exists a, cell_lookup (cells s) c = Some (plain a).
+
+Lemma setter_holds c us e : forall s, holds c s -> holds c (snd (run_list (setter c) us e s)).
+Proof.
+  induction us as [|u r IH]; intros s H; cbn [run_list].
+  - destruct e; exact H.
+  - unfold bind, setter at 1, set_cell. cbn [fst snd]. apply IH. destruct H as [a Ha]. exists u.
+    cbn [set_cells cells]. eapply cell_lookup_update. exact Ha.
+Qed.
+
 Lemma sim_reduce src x init upd : is_var_name x = true -> sim src -> sim init -> sim upd -> sim (Z0Reduce src x init upd).
 Proof.
   intros Hx Hsrc Hinit Hupd n rho v k s Inv Hn Hr HI Hk Hs. cbn [need] in Hn. do 4 (destruct n as [|n]; [lia|]).
@@ -610,21 +714,38 @@ Proof.
          | inr e => ([], Some e)
          | inl acc => match sx with Some e => ([], Some e) | None => ([acc], None) end
          end).
-  pose (InvC := fun (c : N) (cs : list (N * tv)) (s1 : sst) => repsens s1 = rs /\ exists acc, cells s1 = (c, plain acc) :: cs).
+  pose (InvC := fun (c : N) (s1 : sst) => inv_c c s1 /\ holds c s1).
   (* one item *)
-  assert (Hitem : forall c cs w acc s1, cells s1 = (c, plain acc) :: cs -> repsens s1 = rs ->
+  (* one item, wherever the cell sits *)
+  assert (Hitem0 : forall c w acc s1, inv_c c s1 -> cell_lookup (cells s1) c = Some (plain acc) ->
+            Kitem c (plain w) None s1 = run_res (setter c) (upd0 w acc) s1).
+  { intros c w acc s1 Hs1 Hc. unfold Kitem. cbn [ev_bindpat step step_bind_pat].
+    unfold bind, get_cell. rewrite Hc.
+    change (fun (u : tv) (_ : pst) => set_cell c u) with (setter c).
+    apply (Hupd _ _ _ _ _ (inv_c c)); [lia|exact Hr|apply inv_c_ok|apply setter_ok|exact Hs1]. }
+  (* one item, the cell on top *)
+  assert (Hitem : forall c cs w acc s1, cells s1 = (c, plain acc) :: cs -> inv_c c s1 ->
             Kitem c (plain w) None s1 =
             (match snd (upd0 w acc) with None => inl tt | Some e => inr e end,
              set_cells s1 ((c, plain (last (fst (upd0 w acc)) acc)) :: cs))).
-  { intros c cs w acc s1 Hc Hs1. unfold Kitem. cbn [ev_bindpat step step_bind_pat].
-    unfold bind, get_cell. rewrite Hc. cbn [cell_lookup]. rewrite N.eqb_refl.
-    change (fun (u : tv) (_ : pst) => set_cell c u) with (setter c).
-    rewrite (Hupd _ _ _ _ _ (fun s2 => repsens s2 = rs)); [|lia|exact Hr|auto|intros u s2 H2; exact H2|exact Hs1].
+  { intros c cs w acc s1 Hc Hs1. rewrite (Hitem0 c w acc s1 Hs1) by (rewrite Hc; cbn [cell_lookup]; rewrite N.eqb_refl; reflexivity).
     unfold run_res. apply (setter_run c cs _ _ acc s1 Hc). }
-  assert (HKitem : forall c cs, K_ok (InvC c cs) (Kitem c)).
-  { intros c cs w s1 [Hs1 [acc Hc]]. rewrite (Hitem c cs w acc s1 Hc Hs1). cbn [snd]. split; [exact Hs1|]. eexists. reflexivity. }
+  assert (HInvC : forall c, inv_ok (InvC c)).
+  { intros c. split; [intros s0 [[H0 _] _]; exact H0|]. intros s0 val [H0 [a Ha]]. split; [apply (proj2 (inv_c_ok c)); exact H0|].
+    exists a. cbn [fr1 cells cell_lookup]. destruct H0 as [_ H0]. destruct (N.eqb_spec (nextid s0) c); [lia|exact Ha]. }
+  assert (HKitem : forall c, K_ok (InvC c) (Kitem c)).
+  { intros c. constructor.
+    - intros w s1 [Hs1 [acc Hc]]. rewrite (Hitem0 c w acc s1 Hs1 Hc). split.
+      + apply (run_list_ok (inv_c c)); [apply setter_ok|exact Hs1].
+      + apply setter_holds. exists acc. exact Hc.
+    - intros w s1 [Hs1 [acc Hc]]. rewrite (Hitem0 c w acc s1 Hs1 Hc). apply (run_list_nid (inv_c c)); [apply setter_ok|exact Hs1].
+    - intros w s1 val [Hs1 [acc Hc]].
+      rewrite (Hitem0 c w acc (fr1 val s1)).
+      + rewrite (Hitem0 c w acc s1 Hs1 Hc). apply (run_list_fr (inv_c c)); [apply setter_ok|exact Hs1].
+      + apply (proj2 (inv_c_ok c)). exact Hs1.
+      + cbn [fr1 cells cell_lookup]. destruct Hs1 as [_ Hlt]. destruct (N.eqb_spec (nextid s1) c); [lia|exact Hc]. }
   (* all items *)
-  assert (Hitems : forall c cs ws sx acc s1, cells s1 = (c, plain acc) :: cs -> repsens s1 = rs ->
+  assert (Hitems : forall c cs ws sx acc s1, cells s1 = (c, plain acc) :: cs -> inv_c c s1 ->
             exists a', run_list (Kitem c) ws sx s1 =
             (match reduce_fold0 upd0 ws acc with
              | inr e => inr e
@@ -644,9 +765,10 @@ Proof.
   assert (HK' : forall w0 s', Inv s' -> K' (plain w0) None s' = run_res k (F w0) s').
   { intros w0 s' Hs'. unfold K', with_cell. cbn [scoped_ids].
     set (st := mkst (outs s') (nout s') (cap s') (nextid s' + 1)%N (inputs s') ((nextid s', plain w0) :: cells s') (repsens s') (steps s')).
-    rewrite (Hsrc _ _ _ _ _ (InvC (nextid s') (cells s'))); [|lia|exact Hr|intros s0 [H0 _]; exact H0|apply HKitem|split; [exact (HI _ Hs')|eexists; reflexivity]].
+    assert (Hst : inv_c (nextid s') st) by (split; [exact (proj1 HI _ Hs')|subst st; cbn [nextid]; lia]).
+    rewrite (Hsrc _ _ _ _ _ (InvC (nextid s'))); [|lia|exact Hr|apply HInvC|apply HKitem|split; [exact Hst|exists w0; subst st; cbn [cells cell_lookup]; rewrite N.eqb_refl; reflexivity]].
     unfold run_res.
-    destruct (Hitems (nextid s') (cells s') (fst (den0 rs src rho v)) (snd (den0 rs src rho v)) w0 st eq_refl (HI _ Hs')) as [a' [E1 E2]].
+    destruct (Hitems (nextid s') (cells s') (fst (den0 rs src rho v)) (snd (den0 rs src rho v)) w0 st eq_refl Hst) as [a' [E1 E2]].
     rewrite E1. unfold F. destruct (den0 rs src rho v) as [ws sx]. cbn [fst snd] in *.
     destruct (reduce_fold0 upd0 ws w0) as [acc|e] eqn:ER.
     - specialize (E2 acc eq_refl). subst a'. destruct sx as [e|];
@@ -654,12 +776,147 @@ Proof.
       + subst st. destruct s'; reflexivity.
       + change (run_list k (fst ([acc], None)) (snd ([acc], None)) s') with (run_res k ([acc], None) s'). rewrite run_single. subst st. destruct s'; reflexivity.
     - cbn [set_cells cells cell_remove outs nout cap nextid inputs repsens steps]. rewrite N.eqb_refl. subst st. destruct s'; reflexivity. }
-  assert (HKok : K_ok Inv K').
-  { intros w0 s' Hs'. rewrite HK' by exact Hs'. apply (run_list_ok Inv); assumption. }
+  assert (HKok : K_ok Inv K') by (apply (K_ok_of_eq Inv k K' F); assumption).
   change (eval_q bs (S (S n)) rho (emb init) (plain v) None K' s = run_res k (den0 rs (Z0Reduce src (cx :: x) init upd) rho v) s).
   rewrite (Hinit _ _ _ _ _ Inv) by (try lia; assumption). unfold run_res at 1.
   rewrite (run_list_ext Inv _ (fun x0 _ => run_res k (F (fst x0)))); try assumption.
   rewrite (run_rbind k F). cbn [den0]. destruct (den0 rs init rho v); reflexivity.
+Qed.
+
+(* ---- a // b : the consumer runs while the `found` cell is live (a frame) ---- *)
+
+Fixpoint frames (fs : list tv) (s : sst) : sst :=
+  match fs with
+  | [] => s
+  | f :: r => fr1 f (frames r s)
+  end.
+
+Lemma frames_repsens fs s : repsens (frames fs s) = repsens s.
+Proof. induction fs; [reflexivity|exact IHfs]. Qed.
+
+Lemma frames_nextid_le fs s : (nextid s <= nextid (frames fs s))%N.
+Proof. induction fs as [|f r IH]; cbn [frames fr1 nextid]; lia. Qed.
+
+Lemma frames_inv Inv fs s : inv_ok Inv -> Inv s -> Inv (frames fs s).
+Proof. intros [_ H2] Hs. induction fs as [|f r IH]; [exact Hs|]. apply H2. exact IH. Qed.
+
+Lemma k_frames Inv k w fs s : inv_ok Inv -> K_ok Inv k -> Inv s ->
+  k (plain w) None (frames fs s) = (fst (k (plain w) None s), frames fs (snd (k (plain w) None s))).
+Proof.
+  intros HI Hk Hs. induction fs as [|f r IH]; cbn [frames].
+  - destruct (k (plain w) None s); reflexivity.
+  - rewrite (kg_fr _ _ Hk w (frames r s) f) by (apply frames_inv; assumption). rewrite IH. reflexivity.
+Qed.
+
+Lemma set_cell_frames u fs b s0 :
+  set_cell (nextid s0) u (frames fs (fr1 b s0)) = (inl tt, frames fs (fr1 u s0)).
+Proof.
+  unfold set_cell. f_equal.
+  induction fs as [|f r IH]; cbn [frames].
+  - unfold set_cells. cbn [fr1 cells cell_update outs nout cap nextid inputs repsens steps]. rewrite N.eqb_refl. reflexivity.
+  - rewrite <- IH. unfold set_cells. cbn [fr1 cells cell_update outs nout cap nextid inputs repsens steps].
+    assert (Hne : (nextid (frames r (fr1 b s0)) =? nextid s0)%N = false).
+    { apply N.eqb_neq. pose proof (frames_nextid_le r (fr1 b s0)) as H. cbn [fr1 nextid] in H. lia. }
+    rewrite Hne. reflexivity.
+Qed.
+
+Definition K1 (k : K) (c : N) : K :=
+  fun x ps' => if truthy (fst x) then set_cell c (plain VTrue) ;; k x ps' else ret tt.
+
+Definition inv_alt (Inv : sst -> Prop) (c : N) (s1 : sst) : Prop :=
+  exists fs b s0, Inv s0 /\ nextid s0 = c /\ s1 = frames fs (fr1 (plain (VBool b)) s0).
+
+Lemma frames_nextid fs X s : nextid (frames fs (fr1 X s)) = (nextid s + 1 + N.of_nat (List.length fs))%N.
+Proof. induction fs as [|f r IH]; cbn [frames fr1 nextid List.length]; [lia|]. rewrite IH. lia. Qed.
+
+Lemma K1_step Inv k w fs b s0 : inv_ok Inv -> K_ok Inv k -> Inv s0 ->
+  K1 k (nextid s0) (plain w) None (frames fs (fr1 (plain (VBool b)) s0)) =
+  if truthy w then (fst (k (plain w) None s0), frames fs (fr1 (plain VTrue) (snd (k (plain w) None s0))))
+  else (inl tt, frames fs (fr1 (plain (VBool b)) s0)).
+Proof.
+  intros HI Hk Hs. unfold K1. cbn [fst plain]. destruct (truthy w); [|reflexivity].
+  unfold bind. rewrite set_cell_frames.
+  rewrite (k_frames Inv k w fs (fr1 (plain VTrue) s0) HI Hk) by (apply (proj2 HI); exact Hs).
+  rewrite (kg_fr _ _ Hk w s0 (plain VTrue) Hs). reflexivity.
+Qed.
+
+Lemma inv_alt_ok Inv c : inv_ok Inv -> inv_ok (inv_alt Inv c).
+Proof.
+  intros HI. split.
+  - intros s1 (fs & b & s0 & H0 & _ & ->). rewrite frames_repsens. cbn [fr1 repsens]. apply (proj1 HI). exact H0.
+  - intros s1 val (fs & b & s0 & H0 & Hc & ->). exists (val :: fs), b, s0. auto.
+Qed.
+
+Lemma K1_ok Inv k c : inv_ok Inv -> K_ok Inv k -> K_ok (inv_alt Inv c) (K1 k c).
+Proof.
+  intros HI Hk. constructor.
+  - intros w s1 (fs & b & s0 & H0 & <- & ->). rewrite (K1_step Inv k w fs b s0 HI Hk H0).
+    destruct (truthy w); cbn [snd].
+    + exists fs, true, (snd (k (plain w) None s0)). split; [apply (kg_ok _ _ Hk); exact H0|]. split; [apply (kg_nid _ _ Hk); exact H0|reflexivity].
+    + exists fs, b, s0. auto.
+  - intros w s1 (fs & b & s0 & H0 & <- & ->). rewrite (K1_step Inv k w fs b s0 HI Hk H0).
+    destruct (truthy w); cbn [snd]; [|reflexivity]. rewrite !frames_nextid. rewrite (kg_nid _ _ Hk w s0 H0). reflexivity.
+  - intros w s1 val (fs & b & s0 & H0 & <- & ->).
+    change (fr1 val (frames fs (fr1 (plain (VBool b)) s0))) with (frames (val :: fs) (fr1 (plain (VBool b)) s0)).
+    rewrite (K1_step Inv k w (val :: fs) b s0 HI Hk H0), (K1_step Inv k w fs b s0 HI Hk H0).
+    destruct (truthy w); reflexivity.
+Qed.
+
+Definition is_nil {A} (l : list A) : bool := match l with [] => true | _ => false end.
+
+Lemma alt_run Inv k e : inv_ok Inv -> K_ok Inv k -> forall ws b s0, Inv s0 ->
+  exists b', run_list (K1 k (nextid s0)) ws e (fr1 (plain (VBool b)) s0) =
+             (fst (run_list k (filter truthy ws) e s0), fr1 (plain (VBool b')) (snd (run_list k (filter truthy ws) e s0))) /\
+             (fst (run_list k (filter truthy ws) e s0) = inl tt -> b' = b || negb (is_nil (filter truthy ws))).
+Proof.
+  intros HI Hk. induction ws as [|w r IH]; intros b s0 H0; cbn [run_list filter].
+  - exists b. split; [destruct e; reflexivity|]. intros _. cbn. rewrite orb_false_r. reflexivity.
+  - unfold bind at 1. pose proof (K1_step Inv k w [] b s0 HI Hk H0) as HS. cbn [frames] in HS. rewrite HS. clear HS.
+    destruct (truthy w) eqn:Tw; cbn [run_list].
+    + unfold bind. pose proof (kg_ok _ _ Hk w s0 H0) as H1. pose proof (kg_nid _ _ Hk w s0 H0) as H2.
+      destruct (k (plain w) None s0) as [[[]|x] s1]; cbn [fst snd] in *.
+      * rewrite <- H2. destruct (IH true s1 H1) as [b' [E1 E2]]. exists b'. split; [exact E1|].
+        intros E. rewrite (E2 E). cbn [is_nil negb orb]. rewrite orb_true_r. reflexivity.
+      * exists true. split; [reflexivity|]. intros E; discriminate.
+    + apply IH. exact H0.
+Qed.
+
+Lemma run_list_some_not_inl k ws x s : fst (run_list k ws (Some x) s) <> inl tt.
+Proof.
+  revert s. induction ws as [|w r IH]; intros s; cbn [run_list]; [discriminate|].
+  unfold bind. destruct (k (plain w) None s) as [[[]|y] s1]; [apply IH|discriminate].
+Qed.
+
+Lemma sim_alt a b : sim a -> sim b -> sim (Z0Alt a b).
+Proof.
+  intros Ha Hb n rho v k s Inv Hn Hr HI Hk Hs. cbn [need] in Hn. do 2 (destruct n as [|n]; [lia|]).
+  cbn [emb]. unfold eval_q, q_bin. cbn [evals_n step ev_q step_eval_q push_defs fold_left scoped_ids].
+  fold_eval. unfold with_cell.
+  change (fun (x : tv) (ps' : pst) => if truthy (fst x) then set_cell (nextid s) (plain VTrue);; k x ps' else ret tt) with (K1 k (nextid s)).
+  change (mkst (outs s) (nout s) (cap s) (nextid s + 1)%N (inputs s) ((nextid s, plain VFalse) :: cells s) (repsens s) (steps s))
+    with (fr1 (plain (VBool false)) s).
+  rewrite (Ha _ _ _ _ _ (inv_alt Inv (nextid s))); [|lia|assumption|apply inv_alt_ok; assumption|apply K1_ok; assumption|exists [], false, s; auto].
+  unfold run_res. destruct (alt_run Inv k (snd (den0 rs a rho v)) HI Hk (fst (den0 rs a rho v)) false s Hs) as [b' [E1 E2]].
+  rewrite E1. cbn [den0].
+  pose proof (run_list_nid Inv k (filter truthy (fst (den0 rs a rho v))) (snd (den0 rs a rho v)) s Hk Hs) as Hnid.
+  destruct (den0 rs a rho v) as [ws e]; cbn [fst snd] in *.
+  set (R := run_list k (filter truthy ws) e s) in *.
+  destruct R as [[[]|x] sR] eqn:ER; cbn [fst snd fr1 cells cell_lookup cell_remove outs nout cap nextid inputs repsens steps] in *.
+  - rewrite Hnid, N.eqb_refl. specialize (E2 eq_refl). cbn [orb] in E2. subst b'. cbn [fst plain].
+    destruct e as [x0|].
+    + exfalso. eapply (run_list_some_not_inl k (filter truthy ws) x0 s). subst R. rewrite ER. reflexivity.
+    + destruct (filter truthy ws) as [|t ts] eqn:Ef; cbn [is_nil negb truthy].
+      * subst R. cbn [run_list ret] in ER. injection ER as <-. 
+        replace (mkst (outs s) (nout s) (cap s) (nextid s) (inputs s) (cells s) (repsens s) (steps s)) with s by (destruct s; reflexivity).
+        apply (Hb _ _ _ _ _ Inv); try assumption. lia.
+      * cbn [fst snd]. change (run_list k (t :: ts) None s) with R. rewrite ER. unfold ret. f_equal. rewrite <- Hnid. destruct sR; reflexivity.
+  - rewrite Hnid, N.eqb_refl.
+    assert (ER' : run_list k (filter truthy ws) e s = (inr x, sR)) by (subst R; exact ER).
+    destruct e as [x0|].
+    + cbn [fst snd]. rewrite ER'. f_equal. rewrite <- Hnid. destruct sR; reflexivity.
+    + destruct (filter truthy ws) as [|t ts] eqn:Ef.
+      * cbn [run_list ret] in ER'. discriminate ER'.
+      * cbn [fst snd]. rewrite ER'. f_equal. rewrite <- Hnid. destruct sR; reflexivity.
 Qed.
 
 Lemma syn_depth_S : exists d, syn_depth = S d.
@@ -677,7 +934,7 @@ Proof.
                eval_q bs (S (S n)) (BVar (c :: x) x0 :: BVar (c :: x) (plain VNull) :: rho) (emb body) (plain v) None k).
   assert (HR : forall w, vars_only (bind_env rho (c :: x) w)) by (intros w; exact Hr).
   assert (HK : K_ok Inv K').
-  { intros w s' Hs'. unfold K'. rewrite (Hbody _ _ _ _ _ Inv) by (try lia; try apply HR; assumption). apply (run_list_ok Inv); assumption. }
+  { apply (K_ok_of_eq Inv k _ (fun w => den0 rs body (bind_env rho (c :: x) w) v)); try assumption. intros w s' Hs'. unfold K'. apply (Hbody _ _ _ _ _ Inv); [lia|apply HR|assumption|assumption|assumption]. }
   change (eval_q bs (S (S n)) rho (emb src) (plain v) None K' s =
           run_res k (rbind (den0 rs src rho v) (fun w => den0 rs body (bind_env rho (c :: x) w) v)) s).
   rewrite (Hsrc _ _ _ _ _ Inv) by (try lia; assumption). unfold run_res at 1.
@@ -704,6 +961,7 @@ Proof.
   - apply sim_var. exact H.
   - apply sim_array. apply sem_den0. exact H.
   - apply sim_reduce; [tauto|apply sem_den0; tauto|apply sem_den0; tauto|apply sem_den0; tauto].
+  - apply sim_alt; apply sem_den0; tauto.
 Qed.
 
 (* observation level: when the generator ends before the cap, the observation is the list *)
@@ -731,15 +989,24 @@ Proof.
     exists s'. split; [exact E1|]. rewrite E2. cbn [outs rev]. rewrite <- app_assoc. reflexivity.
 Qed.
 
-Lemma emit_ok : K_ok (fun s => repsens s = rs) emit.
-Proof. intros w s Hs. unfold emit. destruct (Nat.leb (cap s) (S (nout s))); exact Hs. Qed.
+Definition inv_top (s : sst) : Prop := repsens s = rs.
+Lemma inv_top_ok : inv_ok inv_top.
+Proof. split; [intros s H; exact H|intros s val H; exact H]. Qed.
+
+Lemma emit_ok : K_ok inv_top emit.
+Proof.
+  constructor.
+  - intros w s Hs. unfold emit. destruct (Nat.leb (cap s) (S (nout s))); exact Hs.
+  - intros w s _. unfold emit. destruct (Nat.leb (cap s) (S (nout s))); reflexivity.
+  - intros w s val _. unfold emit. cbn [fr1 cap nout]. destruct (Nat.leb (cap s) (S (nout s))); reflexivity.
+Qed.
 
 Theorem observe_den0 q : ok0 q -> forall n capn ins v,
   (need q <= n)%nat -> (List.length (fst (den0 rs q [] v)) < capn)%nat ->
   observe bs n capn rs ins (emb q) v = (fst (den0 rs q [] v), ending_of (snd (den0 rs q [] v))).
 Proof.
   intros Hq n capn ins v Hn Hc. unfold observe.
-  rewrite (sem_den0 q Hq n [] v emit (init_state capn ins rs) (fun s => repsens s = rs) Hn I (fun _ H => H) emit_ok eq_refl).
+  rewrite (sem_den0 q Hq n [] v emit (init_state capn ins rs) inv_top Hn I inv_top_ok emit_ok eq_refl).
   unfold run_res. destruct (run_emit (fst (den0 rs q [] v)) (snd (den0 rs q [] v)) (init_state capn ins rs)) as [s' [E1 E2]].
   { cbn [nout cap init_state]. lia. }
   rewrite E1. cbn [outs init_state] in E2. rewrite app_nil_r in E2.
